@@ -52,6 +52,12 @@ CHECKS = {
    text="Every join of up to 5 segments of the 14-entry alphabet (579 194 names) and generated noise names are loaded through get_template, include, include-list, extends and import from a real directory tree whose files state their own relative path and whose surroundings hold OUTSIDE canaries; an Ok result must be the INSIDE file named by the non-empty, non-dot segments. safe_join (via the verif_hooks re-export) must return None or a path whose components are exactly those segments.",
    note="Assumes Linux path semantics and no symlinks inside the base. Exhaustive only over the stated alphabet and length.",
    design="3/C17"),
+ "C18": dict(
+   technique="property-based testing: generated single-file templates rendered with a recording context object; one-directional inclusion oracle (keys the engine looked up, minus globals, must be contained in undeclared_variables)",
+   level="exploration",
+   text="A generator aimed at assignment shapes that read what they assign (set/with/set-block/macro defaults/loop targets/one-branch assignments/special names as plain variables), plus free-mode and tame programs, is rendered over random context subsets with an Object that logs every key requested; the logged keys minus the environment's globals must be a subset of undeclared_variables(false) and of the first segments of undeclared_variables(true).",
+   note="One direction only (over-approximation is allowed). Debug mode off. One listed finding: a macro's own name is enclosed (looked up) at declaration.",
+   design="3/C18"),
 }
 
 NOT_YET = "check not built yet in this session (work in progress; see DESIGN.md section 3 for the planned check)"
